@@ -315,6 +315,20 @@ def run_ec(ctx):
                 t2 = copy.deepcopy(t)
                 t2["header"]["epk"] = fn(t2["header"]["epk"])
                 ops.append(("jwe.dec_jwk", {"jwe": t2, "jwk": pool[name], "rand": "00" * 64, "_refuse": True, "_site": "ec:invalid-epk", "_why": label + " on " + pool[name]["crv"]}))
+    # a member that is present but is not decodable text is not read as absent (EC twin of the RSA rule): verification
+    # and exchange with such a key fail
+    for i, (name, oth, forn) in enumerate(pairs):
+        tok = sigs[i].get("jws")
+        good = pool[name]
+        peer = pool[oth] if pool[oth]["crv"] == good["crv"] else good
+        for m in ("d", "x", "y"):
+            for junk in ("!!", "A", 5, [], None):
+                j = dict(good, **{m: junk})
+                why = "an EC key whose %s is %r" % (m, junk)
+                if tok:
+                    ops.append(("jws.ver", {"jws": tok, "jwk": j, "all": False, "_refuse": True, "_site": "ec:member-undecodable", "_why": why + " (verify)"}))
+                ops.append(("jwk.exc", {"prv": peer, "pub": j, "_refuse": True, "_site": "ec:member-undecodable", "_why": why + " (exchange, remote key)"}))
+                ops.append(("jws.sig", {"jws": {"payload": pay}, "sig": {"protected": {"alg": G.ES[name]}}, "jwk": j, "_refuse": True, "_site": "ec:member-undecodable", "_why": why + " (sign)"}))
     # every ECDSA algorithm with a key of every curve: only the algorithm's own curve is admitted, whoever names the
     # algorithm (protected header, unprotected header, or the key's own "alg" - a key that claims ES256 while lying on
     # P-521 is refused like any other).  The token to verify is signed by an independent ECDSA over that very key with
@@ -385,6 +399,32 @@ def run_sym(ctx):
                                     "_site": "kw:length", "_why": why + " (wrap)"}))
             if tokr.get("ok"):
                 ops.append(("jwe.dec_jwk", {"jwe": tokr["jwe"], "jwk": key, "rand": "00" * 64, flag: True, "_site": "kw:length", "_why": why + " (unwrap)"}))
+    # consuming side with keys DERIVED from the genuine one (zero-padded, truncated, one byte appended): a unwrap or
+    # decryption that silently truncates or pads the key would succeed with them; random wrong-length keys fail anyway
+    for w, need in E.KW.items():
+        good = {"kty": "oct", "k": G.b64u(rng.randbytes(need - 8) + bytes(8))}        # ends in zero bytes: truncation-equivalent variants exist
+        tokr = ctx.real([("jwe.enc", {"jwe": {"protected": {"alg": w, "enc": "A128GCM"}}, "jwk": good, "pt": "aabb", "rand": rng.randbytes(100).hex()})])[0]
+        gb = G.b64d(good["k"])
+        if tokr.get("ok"):
+            for label, kb in (("zero-padded by 8", gb + bytes(8)), ("zero-padded by 1", gb + b"\0"), ("its first %d bytes" % (need - 8), gb[:need - 8]), ("one byte appended", gb + b"x"),
+                              ("doubled", gb + gb)):
+                ops.append(("jwe.dec_jwk", {"jwe": tokr["jwe"], "jwk": {"kty": "oct", "k": G.b64u(kb)}, "rand": "00" * 64, "_refuse": True, "_site": "kw:length",
+                                            "_why": "the genuine %s key %s (unwrap)" % (w, label)}))
+    for enc in E.ENCS:
+        need = E.CEKLEN[enc]
+        gb = rng.randbytes(need - 8) + bytes(8)
+        good = {"kty": "oct", "k": G.b64u(gb)}
+        tokr = ctx.real([("jwe.enc_cek", {"jwe": {"protected": {"enc": enc}}, "cek": good, "pt": "aabb", "rand": "33" * 16})])[0]
+        tokd = ctx.real([("jwe.enc", {"jwe": {"protected": {"alg": "dir", "enc": enc}}, "jwk": dict(good, alg=enc), "pt": "aabb", "rand": "33" * 16})])[0]
+        for label, kb in (("zero-padded by 8", gb + bytes(8)), ("zero-padded by 1", gb + b"\0"), ("its first %d bytes" % (need - 8), gb[:need - 8]), ("doubled", gb + gb)):
+            if tokr.get("ok"):
+                ops.append(("jwe.dec_cek", {"jwe": tokr["jwe"], "cek": {"kty": "oct", "k": G.b64u(kb)}, "_refuse": True, "_site": "cek:length",
+                                            "_why": "the genuine %s content key %s (decrypt)" % (enc, label)}))
+            if tokd.get("ok"):
+                ops.append(("jwe.dec", {"jwe": tokd["jwe"], "jwk": {"kty": "oct", "k": G.b64u(kb), "alg": enc}, "rand": "00" * 64, "_refuse": True, "_site": "dir:length",
+                                        "_why": "the genuine direct key for %s %s (decrypt)" % (enc, label)}))
+        if tokd.get("ok"):
+            ops.append(("jwe.dec", {"jwe": tokd["jwe"], "jwk": dict(good, alg=enc), "rand": "00" * 64, "_accept": True, "_site": "dir:length", "_why": "the genuine direct key for %s" % enc}))
     # RFC 3394 key data: at least two 64-bit blocks and a whole number of them; wrapped text is 8 bytes longer.  A content
     # key the caller supplies (jose_jwe_enc_jwk) of any other length must not be wrapped, an "encrypted_key" of any
     # other length must not unwrap - with every algorithm that ends in AES key wrap
